@@ -13,7 +13,7 @@ EXPLANATION = ('Static rules: L1 serialisation by typing — Observer::next take
                '(no cell is acquired while a guard of the same class or of a class that is ordered after it is held), (b) calls that leave '
                'the library upstream or into user code (subscribe, unsubscribe of a foreign subscription, stored or user closures, polling a '
                'user future) happen under a library lock only at the tabled sites; downstream observer calls only ever descend the pipeline; '
-               'L4 no lost wake-up (same rules as C14.R3/R4). Together: no deadlock among library locks for callers that do not re-enter '
+               'L4 no lost wake-up (same rules as C14.R3/R4); L5 merge_all takes its slot decision and acts on it in one critical section (same rule as C05.F3). Together: no deadlock among library locks for callers that do not re-enter '
                'from a callback. Does not decide value-dependent panics, fairness or preemption-level schedules.')
 ASSUMPTIONS = ['callers do not re-enter the same pipeline from inside a callback (the property\'s own proviso)',
                'std::sync::Mutex and RefCell are not re-entrant; guards are released at the MIR drop of the guard local']
@@ -181,6 +181,9 @@ def check(cx):
     for key in FOREIGN_UNDER_LOCK:
         if key not in foreign:
             res.append(Finding(ID, 'L3b', 'table:%s|%s' % (key[0], key[1]), False, 'tabled site no longer exists (table must be updated)'))
+    # L5: check-then-act atomicity of the flattening state (no lost wake-up of a queued inner)
+    from . import c05
+    res += c05.f3(cx, ID, 'L5')
     # L4
     for f in c14.r3(cx) + c14.r4(cx):
         res.append(Finding(ID, 'L4', f.key, f.ok, f.msg, f.loc, f.witness))
